@@ -52,7 +52,7 @@ func VerifC08NatVisitor() {
 		TransactionID: "t1",
 		ProxyName:     []string{"x1", "nosuch"}[zzverif.Choice("name", 2)],
 		Timestamp:     zzverif.Int64("ts"),
-		SignKey:       zzverif.String("sign", 8),
+		SignKey:       zzverif.String("sign", []int{8, 0, 1, 7, 9}[zzverif.Choice("signLen", 5)]),
 		PreCheck:      zzverif.Bool("preCheck"),
 	}
 	user := c08NatUsers[zzverif.Choice("user", 3)]
